@@ -278,37 +278,3 @@ Example rt_export_response_example :
   (exists sc, conf_ty kmip_schema kmip_ops kmip_attrs kmip_objs 40 (Some (1, 4)) (TNamed "payloads.ExportResponsePayload") 4325500 ex_export_response = Some sc) /\
   ex_roundtrip (Some (1, 4)) "payloads.ExportResponsePayload" 4325500 ex_export_response = Ok true.
 Proof. split; [eexists; vm_compute; reflexivity | vm_compute; reflexivity]. Qed.
-
-(* With every hand-written codec dispatched in [conf_custom_of] (checked against the full
-   dispatcher): objects holding a KeyBlock, non-empty attribute lists.
-
-Definition ex_attr_object_group : value :=
-  VStruct "kmip.Attribute" [VStr [79; 98; 106; 101; 99; 116; 32; 71; 114; 111; 117; 112]; VPtr (VInt 0); VIface (TScalar KString) (VStr [103; 49])].
-Definition ex_symmetric_key : value :=
-  VIface (TPtr (TNamed "kmip.SymmetricKey")) (VPtr (VStruct "kmip.SymmetricKey" [VStruct "kmip.KeyBlock"
-    [VInt 7; VInt 0; VPtr (VStruct "kmip.KeyValue" [VNil; VPtr (VStruct "kmip.PlainKeyValue"
-       [VStruct "kmip.KeyMaterial" [VNil; VPtr (VStruct "kmip.TransparentSymmetricKey" [VStr [1; 2; 3; 4]]); VNil; VNil; VNil; VNil; VNil; VNil];
-        VList [ex_attr_object_group]])]); VInt 3; VInt 32; VNil]])).
-
-Definition ex_get_response_key : value :=
-  VStruct "payloads.GetResponsePayload" [VInt 2; VStr [105; 100; 45; 49]; ex_symmetric_key].
-Example rt_get_response_example_key :
-  (exists sc, conf_ty kmip_schema kmip_ops kmip_attrs kmip_objs 40 (Some (1, 4)) (TNamed "payloads.GetResponsePayload") 4325500 ex_get_response_key = Some sc) /\
-  ex_roundtrip (Some (1, 4)) "payloads.GetResponsePayload" 4325500 ex_get_response_key = Ok true.
-Proof. split; [eexists; vm_compute; reflexivity | vm_compute; reflexivity]. Qed.
-
-Definition ex_register_request_key : value :=
-  VStruct "payloads.RegisterRequestPayload"
-    [VInt 2; VStruct "kmip.TemplateAttribute" [VList [VStruct "kmip.Name" [VStr [107; 49]; VInt 1]]; VList [ex_attr_object_group]]; ex_symmetric_key].
-Example rt_register_request_example_key :
-  (exists sc, conf_ty kmip_schema kmip_ops kmip_attrs kmip_objs 40 (Some (1, 4)) (TNamed "payloads.RegisterRequestPayload") 4325497 ex_register_request_key = Some sc) /\
-  ex_roundtrip (Some (1, 4)) "payloads.RegisterRequestPayload" 4325497 ex_register_request_key = Ok true.
-Proof. split; [eexists; vm_compute; reflexivity | vm_compute; reflexivity]. Qed.
-
-Definition ex_export_response_key : value :=
-  VStruct "payloads.ExportResponsePayload" [VInt 2; VStr [105; 100; 45; 49]; VList [ex_attr_object_group]; ex_symmetric_key].
-Example rt_export_response_example_key :
-  (exists sc, conf_ty kmip_schema kmip_ops kmip_attrs kmip_objs 40 (Some (1, 4)) (TNamed "payloads.ExportResponsePayload") 4325500 ex_export_response_key = Some sc) /\
-  ex_roundtrip (Some (1, 4)) "payloads.ExportResponsePayload" 4325500 ex_export_response_key = Ok true.
-Proof. split; [eexists; vm_compute; reflexivity | vm_compute; reflexivity]. Qed.
-*)
